@@ -1288,7 +1288,7 @@ class _TriangularDynamicsService(_LibrationDynamicsService):
 
         omegas_unique = []
         for omega in omegas_with_sign:
-            if not any(np.isclose(omega, existing, atol=1e-12) for existing in omegas_unique):
+            if not any(np.isclose(omega, existing, rtol=0.0, atol=1e-12) for existing in omegas_unique):
                 omegas_unique.append(omega)
 
         if len(omegas_unique) != 6:
